@@ -40,6 +40,11 @@ func init() {
 				if nm, err = hx.NewNodeMachine(opts, fs); err != nil {
 					return err
 				}
+				if opts.GenesisFault > 0 {
+					if err := nm.CheckState(); err != nil {
+						return fmt.Errorf("after the repeated play of the root block (write %d of the first attempt failed): %v", opts.GenesisFault, err)
+					}
+				}
 			}
 			var fo faultOp
 			var op hx.NOp
@@ -64,6 +69,16 @@ func init() {
 			}
 			if err := nm.CheckImage(); err != nil {
 				return stepErr(i, op, err)
+			}
+		}
+		if nm == nil && opts.GenesisFault > 0 {
+			// the history failed before its first operation
+			var err error
+			if nm, err = hx.NewNodeMachine(opts, fs); err != nil {
+				return err
+			}
+			if err := nm.CheckState(); err != nil {
+				return fmt.Errorf("after the repeated play of the root block (write %d of the first attempt failed): %v", opts.GenesisFault, err)
 			}
 		}
 		return nil
@@ -152,12 +167,25 @@ func TestC05(t *testing.T) {
 	c.Check(t, "node-machine-faults", hx.N(300, 2000), func(cs *hx.Case) {
 		rt := cs.RT()
 		opts := hx.DefaultOpts()
+		// one history in six starts with a failed operation: the first play of the root block hits a write error at a
+		// drawn write and is repeated (no trace of the failed attempt may survive in the running node)
+		if rapid.IntRange(0, 5).Draw(rt, "genesisfault") == 0 {
+			opts.GenesisFault = rapid.IntRange(1, 3).Draw(rt, "genesisfaultat")
+		}
 		cs.Op(map[string]interface{}{"opts": opts})
 		nm, err := hx.NewNodeMachine(opts, fs)
 		if err != nil {
 			rt.Fatalf("setup: %v", err)
 		}
 		defer nm.Close()
+		if opts.GenesisFault > 0 {
+			if nm.N.GenesisFaultFired {
+				cs.Label("root-block-play-failed-then-repeated")
+			}
+			if err := nm.CheckState(); err != nil {
+				cs.Failf("after the repeated play of the root block (write %d of the first attempt failed): %v", opts.GenesisFault, err)
+			}
+		}
 		n := rapid.IntRange(3, cfg.MaxSteps).Draw(rt, "steps")
 		failedThenOK := false
 		sawFailure := false
